@@ -457,6 +457,7 @@ func c20Attributes(c *Ctx) {
 }
 
 var c20Canaries = []Canary{
+	{Name: "r5-uninstall-touches-local-scope", ExpectKey: "C20.R4#section-removal-site", Edits: []Edit{{File: "commands/command_uninstall.go", Find: "\tif err := cmdInstallOptions().Uninstall(); err != nil {", Repl: "\tcmdInstallOptions().GitConfig.UnsetLocalSection(\"filter.lfs\")\n\tif err := cmdInstallOptions().Uninstall(); err != nil {"}}},
 	{Name: "install-ignores-force", ExpectKey: "C20.R1#Install", Edits: []Edit{{File: "lfs/hook.go", Find: "	if h.Exists() && !force {\n		tracerx.Printf(msg + \", upgrading...\")\n		return h.Upgrade()\n	}", Repl: "	if h.Exists() && !force && h.Type != \"pre-push\" {\n		tracerx.Printf(msg + \", upgrading...\")\n		return h.Upgrade()\n	}"}}},
 	{Name: "upgrade-writes-foreign", ExpectKey: "C20.R1#Upgrade:foreign-hook-kept", Edits: []Edit{{File: "lfs/hook.go", Find: "	if !upgradable || match {\n		return nil\n	}\n\n	return h.write()", Repl: "	if !upgradable && match {\n		return nil\n	}\n\n	return h.write()"}}},
 	{Name: "uninstall-removes-foreign", ExpectKey: "C20.R1#Uninstall", Edits: []Edit{{File: "lfs/hook.go", Find: "	if !upgradable {\n		tracerx.Printf(msg + \", doesn't match...\")\n		return nil\n	}", Repl: "	if !upgradable {\n		tracerx.Printf(msg + \", doesn't match...\")\n	}"}}},
